@@ -142,6 +142,13 @@ def run_procs(jobs, res, timeout):
         passed = [int(x) for x in PASSED_RE.findall(txt)]
         res.executed += sum(passed)
         res.requested += req
+        if "WARNING: DATA RACE" in txt:
+            # race detector report: fingerprint by the top frames of the two accesses
+            rep = txt.split("WARNING: DATA RACE")[1].split("==================")[0]
+            frames = re.findall(r"^\s+(\S+\(\))\n\s+\S+?([^/\s]+:\d+)", rep, re.M)
+            fpr = " vs ".join("%s@%s" % f for f in frames[:1] + [x for x in frames[1:] if x != frames[0]][:1])
+            res.violations.append((name.split("#")[0], env["VERIF_LOG"], "DATA RACE " + fpr + " (%d reports in this shard)" % txt.count("WARNING: DATA RACE")))
+            viol = viol or ["race"]
         fatal = re.search(r"^(fatal error: (?!runtime: out of memory|runtime: cannot allocate)[^\n]*)", txt, re.M)
         if rc != 0 and not viol and fatal:
             # the Go runtime aborted the process inside the code under test (e.g. unlock of unlocked mutex,
